@@ -230,7 +230,10 @@ func c15structured(c *mc.Ctx, tags *[]string) poly.Sequence {
 		case 3:
 			f.Attributes = map[string]string{"note": txt(fmt.Sprintf("f%d.attr-text", i)), "k2": "", "translation": "MKV"}
 		}
+		loc := f.SequenceLocation
 		s.AddFeature(&f)
+		// the value under test carries exactly the intended location, whatever AddFeature did with it
+		s.Features[len(s.Features)-1].SequenceLocation = loc
 	}
 	return s
 }
@@ -338,6 +341,13 @@ func c15units(tier string) []mc.Unit {
 						rec.feats = append(rec.feats, f)
 					}
 					text := c14write(rec, width, true, true)
+					if n > 5 && nf > 0 && width == 60 {
+						// a file that carries the bases of a sub-region only: features keep their coordinates
+						short := rec
+						short.seq = rec.seq[:n/2]
+						text = c14write(short, width, true, true)
+						rec = short
+					}
 					var x poly.Sequence
 					if p := catch(func() { x = gff.Parse(text) }); p != "" || x.Sequence != rec.seq || len(x.Features) != nf {
 						r.Skip(1) // upstream (C14)
